@@ -16,7 +16,7 @@ Extraction "lc_model.ml"
   parse tokenize_dbr tokenize_cla convert_classic_tokens get_ast fold_exprs display debug
   ref_parse ref_print_cla ref_print_dbr canon indices_in classify
   church scott parigot stumpfu binary bool_t pair_t none_t some_t ok_t err_t tuple_t pair_list church_list scott_list parigot_list
-  dec_church dec_scott dec_parigot dec_stumpfu dec_binary
+  dec_church dec_scott dec_parigot dec_stumpfu dec_binary binary_N dec_binary_N N_of_bits_msb
   into_church into_scott into_parigot into_stumpfu into_binary into_signed into_pair into_option into_result
   into_pair_list into_church_list into_scott_list into_parigot_list tuple_macro pi_macro
   all_terms.
